@@ -1,24 +1,29 @@
 /-
 C04 (real-valued part, UNCONDITIONAL on the middle of `Pow`'s domain) — the `…_of_pow_accuracy` theorems of
 `Props/C04Real` take the accuracy of the ONE `Pow` call as a HYPOTHESIS `|pw/10^18 − (y/10^18)^(wr/10^18)| ≤ ε`.
-`Props/C13Pow.pow_accuracy_mid` proves that hypothesis for every base in `[0.5, 1.5]`; here it is DISCHARGED for the
-balancer operations whose trade size keeps the base in that interval:
+`Props/C13Pow.pow_accuracy_mid` / `pow_accuracy_upper` prove that hypothesis for every base in `[0.5, 1.99]`; here it is
+DISCHARGED for the balancer operations whose trade size keeps the base in that interval:
 
 * exact-in swap: base `≈ R_in/(R_in + a·(1 − spread)) ≥ 0.5` iff `a·(1 − spread) ≤ R_in` (token in, after the spread
   factor, at most the in-reserve) — EXACTLY a MaxInRatio-style guard, which this tree does NOT declare
   (`Props.C04.no_max_ratio_guard_declared`): without it bases below 0.5 are reachable and the documented precision is
   false (C13 F9, findings F22/F23).  With it: `ε = 10^-8`, any weight ratio up to `2^20` (the largest the weights allow):
-  `balancer_swap_out_pow_accuracy_mid`, `balancer_swap_out_vs_exact_mid`, `balancer_swap_out_weighted_product_mid`.
-* exact-out swap: base `≈ R_out/(R_out − a) ≤ 1.5` iff `3·a ≤ R_out` (a MaxOutRatio-style guard of 1/3); weight ratios up
-  to 199; `ε = (3/2)^M·10^-8` for exponents up to `M` (the error of `Pow` is RELATIVE above base 1:
-  `Props.C13Pow.pow_abs_precision_fails_above_one_witness`): `balancer_swap_in_vs_exact_mid`.
-* single-asset join: base `≈ (A + amt·feeRatio)/A ≤ 1.5` as soon as `2·amt ≤ A`; exponent the normalized weight `≤ 1`;
-  `ε = 1.5·10^-8`: `balancer_single_join_vs_exact_mid`.
+  `balancer_swap_out_pow_accuracy_mid`, `balancer_swap_out_mid`, `balancer_swap_out_vs_exact_mid`,
+  `balancer_swap_out_weighted_product_mid`.
+* exact-out swap: base `≈ R_out/(R_out − a) ≤ 1.99` iff `199·a ≤ 99·R_out` (token out below 49.7 % of the out-reserve:
+  a MaxOutRatio-style guard; C04Real's exact-formula theorem itself needs `2·a ≤ R_out`); weight ratios up to 99;
+  `ε = 2^M·10^-8` for exponents up to `M` (the error of `Pow` is RELATIVE above base 1:
+  `Props.C13Pow.pow_abs_precision_fails_above_one_witness`): `balancer_swap_in_pow_accuracy_mid`,
+  `balancer_swap_in_vs_exact_mid`.
+* single-asset join: base `≈ (A + amt·feeRatio)/A ≤ 1.99` as soon as `100·amt ≤ 99·A`; exponent the normalized weight
+  `≤ 1`; `ε = 2·10^-8`: `balancer_single_join_vs_exact_mid`.
 * single-asset exit: whenever the base actually used is at least 0.5 (i.e. `amtOut/feeRatio ≤ A/2`), `ε = 10^-8`:
-  `balancer_exit_swap_vs_exact_mid`, `balancer_exit_swap_product_per_share_mid`.
-All FULL (no accuracy hypothesis left).  NOT covered: `CalcTokenInShareAmountOut` against its exact formula (open in
-C04Real as well; `balancer_token_in_share_out_mid` gives the two-sided bound in terms of the real power on the base and
-exponent used), bases outside `[0.5, 1.5]`.
+  `balancer_exit_swap_pow_accuracy_mid`, `balancer_exit_swap_vs_exact_mid`, `balancer_exit_swap_product_per_share_mid`.
+* shares out → token in: base `(S + sharesOut)/S ≤ 1.99` for `100·sharesOut ≤ 99·S`, exponent `1/nw ≤ 100`; relative
+  `10^-8`: `balancer_token_in_share_out_mid` (two-sided bound in terms of the real power on the base and exponent used;
+  against the EXACT formula it is open in C04Real as well).
+All FULL (no accuracy hypothesis left).  NOT covered: bases outside `[0.5, 1.99]` (below 0.4737 the documented precision
+is FALSE: `Props.C13Pow.pow_accuracy_fails_below_witness`; near 2 `Pow` panics: `pow_panics_near_two_witness`).
 -/
 import OsmoVerif.Proofs.GammRealMid
 import OsmoVerif.Props.C04Real
@@ -94,29 +99,29 @@ theorem balancer_swap_out_weighted_product_mid {p p' : BalPool} {dIn dOut : Stri
 
 /-! ## exact-out swap -/
 
-/-- FULL. The accuracy hypothesis of the exact-out swap theorems, PROVED: if the token out is at most a third of the
-out-reserve (base `≤ 1.5`) and `w_out ≤ 199·w_in`, the `Pow` call is within RELATIVE `10^-8`. -/
+/-- FULL. The accuracy hypothesis of the exact-out swap theorems, PROVED: if `199·a ≤ 99·R_out` (token out below 49.7 %
+of the out-reserve: base `≤ 1.99`) and `w_out ≤ 99·w_in`, the `Pow` call is within RELATIVE `10^-8`. -/
 theorem balancer_swap_in_pow_accuracy_mid {p : BalPool} {dIn dOut : String} {amt spread : Int} {aIn aOut : BalAsset}
     {wr y pw q : Int} (hc : SwapInCall p dIn dOut amt spread aOut aIn wr y pw q)
     (hRo : 0 < aOut.amount) (ha : 0 ≤ amt) (hwi : 0 < aIn.weight) (hwo : 0 < aOut.weight)
-    (hw : aOut.weight ≤ 199 * aIn.weight) (hmax : 3 * amt ≤ aOut.amount) :
+    (hw : aOut.weight ≤ 99 * aIn.weight) (hmax : 199 * amt ≤ 99 * aOut.amount) :
     |dv pw - dv y ^ dv wr| ≤ dv y ^ dv wr / 10 ^ 8 ∧
-      ∀ M : ℝ, dv wr ≤ M → |dv pw - dv y ^ dv wr| ≤ (3 / 2 : ℝ) ^ M / 10 ^ 8 := by
+      ∀ M : ℝ, dv wr ≤ M → |dv pw - dv y ^ dv wr| ≤ (2 : ℝ) ^ M / 10 ^ 8 := by
   obtain ⟨hy1, hy2⟩ := inBase_mid hc.hy hRo ha hmax
-  obtain ⟨hw0, hw1⟩ := wr_range_200 hc.hwr hwo hwi hw
+  obtain ⟨hw0, hw1⟩ := wr_range_100 hc.hwr hwo hwi hw
   exact ⟨pow_call_ge_one hc.hpw hy1 hy2 hw0 hw1, fun M hM => pow_call_ge_one_const hc.hpw hy1 hy2 hw0 hw1 hM⟩
 
 /-- FULL (conditional theorem (b) of C04Real with its hypothesis discharged). Exact-out swap against the EXACT formula
-`R_in·(B^E − 1)/(1 − spread)`, `B = R_out/(R_out − a)`, `E = w_out/w_in`, for `3·a ≤ R_out`:
-`|in − R_in·(B^E − 1)/(1 − spread)| ≤ ((3/2)^M·10^-8 + powDelta 1 M)·R_in/(1 − spread) + quoErr + 1`. -/
+`R_in·(B^E − 1)/(1 − spread)`, `B = R_out/(R_out − a)`, `E = w_out/w_in`, for `199·a ≤ 99·R_out`:
+`|in − R_in·(B^E − 1)/(1 − spread)| ≤ (2^M·10^-8 + powDelta 1 M)·R_in/(1 − spread) + quoErr + 1`. -/
 theorem balancer_swap_in_vs_exact_mid {p : BalPool} {dIn dOut : String} {amt spread t : Int}
     (h : balCalcIn p [(dOut, amt)] dIn spread = .ok t) :
     ∃ aOut aIn wr y pw q, SwapInCall p dIn dOut amt spread aOut aIn wr y pw q ∧
-      ∀ M : ℝ, 0 ≤ aIn.amount → 0 < aOut.amount → 0 ≤ amt → 3 * amt ≤ aOut.amount → spread < P18 →
-        0 < aIn.weight → 0 < aOut.weight → aOut.weight ≤ 199 * aIn.weight →
+      ∀ M : ℝ, 0 ≤ aIn.amount → 0 < aOut.amount → 0 ≤ amt → 199 * amt ≤ 99 * aOut.amount → spread < P18 →
+        0 < aIn.weight → 0 < aOut.weight → aOut.weight ≤ 99 * aIn.weight →
         dv wr ≤ M → wRatio aOut.weight aIn.weight ≤ M →
         |(t : ℝ) - (inBase aOut.amount amt ^ wRatio aOut.weight aIn.weight - 1) * (aIn.amount : ℝ) / (1 - dv spread)| ≤
-          ((3 / 2 : ℝ) ^ M / 10 ^ 8 + powDelta 1 M) * (aIn.amount : ℝ) / (1 - dv spread) + quoErr + 1 := by
+          ((2 : ℝ) ^ M / 10 ^ 8 + powDelta 1 M) * (aIn.amount : ℝ) / (1 - dv spread) + quoErr + 1 := by
   obtain ⟨aOut, aIn, wr, y, pw, q, hc, hmain⟩ := C04Real.swap_in_vs_exact_of_pow_accuracy h
   refine ⟨aOut, aIn, wr, y, pw, q, hc, fun M hRi hRo ha hmax hs1 hwi hwo hw hM1 hM2 => ?_⟩
   have hacc := (balancer_swap_in_pow_accuracy_mid hc hRo ha hwi hwo hw hmax).2 M hM1
@@ -124,19 +129,19 @@ theorem balancer_swap_in_vs_exact_mid {p : BalPool} {dIn dOut : String} {amt spr
 
 /-! ## single-asset join -/
 
-/-- FULL (conditional theorem (c) with its hypothesis discharged). Single-asset join of at most half the reserve
-(`2·amt ≤ A`: base in `[1, 1.5]`), against the EXACT formula `S·(B^W − 1)`: with `ε = 1.5·10^-8`,
+/-- FULL (conditional theorem (c) with its hypothesis discharged). Single-asset join of at most 99 % of the reserve
+(`100·amt ≤ 99·A`: base in `[1, 1.99]`), against the EXACT formula `S·(B^W − 1)`: with `ε = 2·10^-8`,
 `S·(B^W − ε − δ − 1) − 1 < shares ≤ max(S·(B^W + ε + δ − 1), 0)`, `δ` the rounding of base and exponent. -/
 theorem balancer_single_join_vs_exact_mid {p : BalPool} {denom : String} {amt spread T t : Int} {asset : BalAsset}
     (h : balCalcSingleAssetJoin p denom amt spread asset T = .ok t) :
     ∃ nw fr y pw, JoinCall p amt spread asset nw fr y pw ∧
-      (0 < asset.amount → 0 ≤ amt → 2 * amt ≤ asset.amount → 0 ≤ spread → spread ≤ P18 → 0 ≤ asset.weight →
+      (0 < asset.amount → 0 ≤ amt → 100 * amt ≤ 99 * asset.amount → 0 ≤ spread → spread ≤ P18 → 0 ≤ asset.weight →
         asset.weight ≤ p.totalWeight → 0 < p.totalWeight → 0 ≤ T →
-        |dv pw - dv y ^ dv nw| ≤ (3 / 2) / 10 ^ 8 ∧
+        |dv pw - dv y ^ dv nw| ≤ 2 / 10 ^ 8 ∧
         let X := joinBase asset.amount amt asset.weight p.totalWeight spread ^ wRatio asset.weight p.totalWeight
         let δ := 2 * (quoErr + (amt : ℝ) / (asset.amount : ℝ) * (mulErr + quoErr) + quoErr)
-        (T : ℝ) * (X - ((3 / 2) / 10 ^ 8 + δ) - 1) - 1 < t ∧
-          (t : ℝ) ≤ max ((T : ℝ) * (X + ((3 / 2) / 10 ^ 8 + δ) - 1)) 0) := by
+        (T : ℝ) * (X - (2 / 10 ^ 8 + δ) - 1) - 1 < t ∧
+          (t : ℝ) ≤ max ((T : ℝ) * (X + (2 / 10 ^ 8 + δ) - 1)) 0) := by
   obtain ⟨nw, fr, y, pw, hc, hmain⟩ := C04Real.single_join_vs_exact_of_pow_accuracy h
   refine ⟨nw, fr, y, pw, hc, fun hA ha hmax hs0 hs1 hw0 hw1 hW hT => ?_⟩
   have hWd : 0 < toDec p.totalWeight := Int.mul_pos hW P18_pos
@@ -146,15 +151,15 @@ theorem balancer_single_join_vs_exact_mid {p : BalPool} {denom : String} {amt sp
   obtain ⟨hy1, hyr⟩ := join_base_le_ratio hc.hy hA ha hf0 hf1
   have hA' : (0 : ℝ) < asset.amount := by exact_mod_cast hA
   have ha' : (0 : ℝ) ≤ amt := by exact_mod_cast ha
-  have hmax' : 2 * (amt : ℝ) ≤ asset.amount := by exact_mod_cast hmax
-  have hratio : ((asset.amount + amt : Int) : ℝ) / (asset.amount : ℝ) ≤ 3 / 2 := by
+  have hmax' : 100 * (amt : ℝ) ≤ 99 * asset.amount := by exact_mod_cast hmax
+  have hratio : ((asset.amount + amt : Int) : ℝ) / (asset.amount : ℝ) ≤ 199 / 100 := by
     rw [div_le_iff₀ hA']; push_cast; linarith only [hmax']
   have hq := quoErr_lt_ulp
   have hyP : P18 ≤ y := by apply int_ge_of_dv; rw [dv_P18]; linarith only [hy1, show (0 : ℝ) < 1 / 10 ^ 18 by positivity]
-  have hy15 : y ≤ 15 * 10 ^ 17 := by apply int_le_of_dv; rw [dv_three_halves]; linarith only [hyr, hratio, hq]
+  have hy15 : y ≤ 199 * 10 ^ 16 := by apply int_le_of_dv; rw [dv_199]; linarith only [hyr, hratio, hq]
   have hnwr : dv nw ≤ 1 := by have := dv_le hnw1; rwa [dv_P18] at this
   have := P18_val
-  have hacc : |dv pw - dv y ^ dv nw| ≤ (3 / 2) / 10 ^ 8 := by
+  have hacc : |dv pw - dv y ^ dv nw| ≤ 2 / 10 ^ 8 := by
     have := pow_call_ge_one_const (M := 1) hc.hpw hyP hy15 hnw0 (by omega) hnwr
     rwa [Real.rpow_one] at this
   -- the exact base is at most 3/2 as well
@@ -243,14 +248,14 @@ theorem balancer_exit_swap_product_per_share_mid {p p' : BalPool} {denom : Strin
 
 /-! ## shares out → token in -/
 
-/-- FULL (conditional theorem (d) with its hypothesis discharged). `CalcTokenInShareAmountOut` for at most half the
-share supply (`2·sharesOut ≤ S`: base `(S + sharesOut)/S` in `[1, 1.5]`) and an exponent `1/nw` up to 200 (normalized
-weight at least 0.005): with `X = b^e` the real power on the base and exponent used,
+/-- FULL (conditional theorem (d) with its hypothesis discharged). `CalcTokenInShareAmountOut` for at most 99 % of the
+share supply (`100·sharesOut ≤ 99·S`: base `(S + sharesOut)/S` in `[1, 1.99]`) and an exponent `1/nw` up to 100
+(normalized weight at least 0.01): with `X = b^e` the real power on the base and exponent used,
 `(X·(1 − 10^-8) − 1)·A/f − quoErr ≤ tokenIn < (X·(1 + 10^-8) − 1)·A/f + quoErr + 1`. -/
 theorem balancer_token_in_share_out_mid {p : BalPool} {denom : String} {sharesOut spread t : Int}
     (h : balTokenInShareOut p denom sharesOut spread = .ok t) :
     ∃ a nw wr y pw fr q, ShareOutCall p denom sharesOut spread a nw wr y pw fr q ∧
-      (0 < p.totalShares → 0 ≤ sharesOut → 2 * sharesOut ≤ p.totalShares → 0 ≤ wr → wr ≤ 200 * P18 →
+      (0 < p.totalShares → 0 ≤ sharesOut → 100 * sharesOut ≤ 99 * p.totalShares → 0 ≤ wr → wr ≤ 100 * P18 →
         0 ≤ a.amount → 0 < fr →
         |dv pw - dv y ^ dv wr| ≤ dv y ^ dv wr / 10 ^ 8 ∧
         (dv y ^ dv wr - dv y ^ dv wr / 10 ^ 8 - 1) * (a.amount : ℝ) / dv fr - quoErr ≤ t ∧
@@ -259,17 +264,17 @@ theorem balancer_token_in_share_out_mid {p : BalPool} {denom : String} {sharesOu
   refine ⟨a, nw, wr, y, pw, fr, q, hc, fun hS hso hmax hw0 hw1 hA hfr => ?_⟩
   have hS' : (0 : ℝ) < p.totalShares := by exact_mod_cast hS
   have hso' : (0 : ℝ) ≤ sharesOut := by exact_mod_cast hso
-  have hmax' : 2 * (sharesOut : ℝ) ≤ p.totalShares := by exact_mod_cast hmax
+  have hmax' : 100 * (sharesOut : ℝ) ≤ 99 * p.totalShares := by exact_mod_cast hmax
   obtain ⟨_, he⟩ := Dec_quo_dv_error hc.hy
   rw [dv_add, dv_toDec, dv_toDec] at he
   have hr1 : 1 ≤ ((p.totalShares : ℝ) + sharesOut) / p.totalShares := by
     rw [le_div_iff₀ hS']; linarith only [hso']
-  have hr2 : ((p.totalShares : ℝ) + sharesOut) / p.totalShares ≤ 3 / 2 := by
+  have hr2 : ((p.totalShares : ℝ) + sharesOut) / p.totalShares ≤ 199 / 100 := by
     rw [div_le_iff₀ hS']; linarith only [hmax']
   obtain ⟨e1, e2⟩ := abs_le.mp he
   have hq := quoErr_lt_ulp
   have hy1 : P18 ≤ y := by apply int_ge_of_dv; rw [dv_P18]; linarith only [e1, hr1, hq]
-  have hy2 : y ≤ 15 * 10 ^ 17 := by apply int_le_of_dv; rw [dv_three_halves]; linarith only [e2, hr2, hq]
+  have hy2 : y ≤ 199 * 10 ^ 16 := by apply int_le_of_dv; rw [dv_199]; linarith only [e2, hr2, hq]
   have hacc := pow_call_ge_one hc.hpw hy1 hy2 hw0 hw1
   exact ⟨hacc, hmain _ hacc hA hfr⟩
 
